@@ -3,7 +3,7 @@ import Model.Interleave
 namespace Driver
 open Lean Model.Interleave
 
-/-- event: ["reg",n,c] | ["get",n] | ["set",[c…]] | ["lookup",c] | ["clear"] | ["emit",v] -/
+/-- event: ["reg",n,c] | ["get",n] | ["set",[c…]] | ["lookup",c] | ["clear"] | ["emit",v] | ["fetch",[c…],c] -/
 def asEv (j : Json) : R Ev := do
   match ← asArr j with
   | [Json.str "reg", n, c] => return .register (← asNat n) (← asNat c)
@@ -12,6 +12,7 @@ def asEv (j : Json) : R Ev := do
   | [Json.str "lookup", c] => return .lookup (← asNat c)
   | [Json.str "clear"] => return .clearCtx
   | [Json.str "emit", v] => return .emit (← asNat v)
+  | [Json.str "fetch", p, c] => return .fetch (← asList asNat p) (← asNat c)
   | _ => throw "event: expected [kind, args…]"
 
 /-- recorded result: ["idx",n] | ["strat",c|null] | ["val",v] -/
